@@ -392,6 +392,96 @@ func runC20(c *Ctx) {
 				c.R.Unk(rule, "proto."+name, cfg, "", "constructor missing")
 				continue
 			}
+			negOf := func(fn *ssa.Function) []core.Edge {
+				return core.CondEdges(fn, true, func(cond ssa.Value) (bool, bool) {
+					bo, ok := cond.(*ssa.BinOp)
+					if !ok {
+						return false, false
+					}
+					if _, isParam := bo.X.(*ssa.Parameter); isParam {
+						if k, okc := core.ConstInt(bo.Y); okc {
+							switch {
+							case bo.Op == token.LSS && k == 0, bo.Op == token.LEQ && k == -1:
+								return true, true
+							case bo.Op == token.GEQ && k == 0, bo.Op == token.GTR && k == -1:
+								return false, true
+							}
+						}
+					}
+					if _, isParam := bo.Y.(*ssa.Parameter); isParam {
+						if k, okc := core.ConstInt(bo.X); okc && k == 0 {
+							switch bo.Op {
+							case token.GTR:
+								return true, true
+							case token.LEQ:
+								return false, true
+							}
+						}
+					}
+					return false, false
+				})
+			}
+			isMaxC := func(v ssa.Value) bool {
+				cst, ok := v.(*ssa.Const)
+				return ok && cst.Value != nil && cst.Uint64() == ^uint64(0) && cst.Value.String() != "-1"
+			}
+			// a helper h(v int) uint64 that yields all ones exactly for negative v (the sign word)
+			isSignHelper := func(h *ssa.Function) bool {
+				if h == nil || h.Blocks == nil || len(h.Params) != 1 || h.Signature.Results().Len() != 1 {
+					return false
+				}
+				hneg := negOf(h)
+				if len(hneg) == 0 {
+					return false
+				}
+				sawMax, sawZero := false, false
+				for _, hb := range h.Blocks {
+					ret, ok := hb.Instrs[len(hb.Instrs)-1].(*ssa.Return)
+					if !ok {
+						continue
+					}
+					vals := []ssa.Value{ret.Results[0]}
+					anchors := []ssa.Instruction{ret}
+					if ph, isPhi := ret.Results[0].(*ssa.Phi); isPhi {
+						vals, anchors = nil, nil
+						for i, e := range ph.Edges {
+							pred := ph.Block().Preds[i]
+							vals = append(vals, e)
+							anchors = append(anchors, pred.Instrs[len(pred.Instrs)-1])
+						}
+					}
+					for i, v := range vals {
+						switch {
+						case isMaxC(v):
+							if !core.OnlyViaEdges(h, anchors[i], hneg) {
+								return false
+							}
+							sawMax = true
+						default:
+							if k, okc := core.ConstInt(v); !okc || k != 0 {
+								return false
+							}
+							// zero must not be what negative arguments get
+							if core.OnlyViaEdges(h, anchors[i], hneg) {
+								return false
+							}
+							sawZero = true
+						}
+					}
+				}
+				return sawMax && sawZero
+			}
+			isSignWord := func(v ssa.Value) bool {
+				cl, ok := v.(*ssa.Call)
+				if !ok || len(cl.Call.Args) != 1 {
+					return false
+				}
+				if _, isParam := stripConv(cl.Call.Args[0]).(*ssa.Parameter); !isParam {
+					return false
+				}
+				h := core.StaticFn(cl)
+				return h != nil && pkgOf(h) != nil && pkgOf(h).Path() == core.PkgProto && isSignHelper(h)
+			}
 			neg := core.CondEdges(fn, true, func(cond ssa.Value) (bool, bool) {
 				bo, ok := cond.(*ssa.BinOp)
 				if !ok {
@@ -421,6 +511,7 @@ func runC20(c *Ctx) {
 				return false, false
 			})
 			n := 0
+			viaHelper := false
 			isMax := func(v ssa.Value) bool {
 				cst, ok := v.(*ssa.Const)
 				return ok && cst.Value != nil && cst.Uint64() == ^uint64(0) && cst.Value.String() != "-1"
@@ -431,6 +522,10 @@ func runC20(c *Ctx) {
 					case *ssa.Store:
 						if isMax(x.Val) && len(neg) > 0 && core.OnlyViaEdges(fn, x, neg) {
 							n++
+						}
+						if isSignWord(x.Val) {
+							n++
+							viaHelper = true
 						}
 					case *ssa.Phi:
 						for i, e := range x.Edges {
@@ -444,7 +539,7 @@ func runC20(c *Ctx) {
 					}
 				}
 			}
-			if len(neg) == 0 {
+			if len(neg) == 0 && !viaHelper {
 				c.R.Bad(rule, "proto."+name, cfg, p.Pos(fn.Pos()), "no `v < 0` test: negative arguments are not sign-extended")
 			} else if n < upper {
 				c.R.Bad(rule, "proto."+name, cfg, p.Pos(fn.Pos()), sprintf("only %d of the %d upper 64-bit words are set to all ones for a negative argument", n, upper))
@@ -788,6 +883,93 @@ func runC20(c *Ctx) {
 			}
 		}
 		c.R.Floor(rule, cfg, n, 2)
+	}()
+
+	// ---- C20.lowsign
+	rule = "C20.lowsign"
+	c.R.Rule(rule, "the sign of a wide integer lives in its most significant limb: in package proto no comparison with zero is made on a signed conversion of the least significant limb (the first uint64 field of a struct made of uint64 limbs) - `int64(i.Low) < 0` is true for every non-negative value whose low 64 bits have the top bit set, so Int128FromUInt64(v).UInt64() stops being v for v >= 2^63")
+	func() {
+		isLimbStruct := func(t types.Type) bool {
+			st, ok := t.Underlying().(*types.Struct)
+			if !ok || st.NumFields() < 2 {
+				return false
+			}
+			for i := 0; i < st.NumFields(); i++ {
+				ft := st.Field(i).Type()
+				if b, ok := ft.Underlying().(*types.Basic); ok && b.Kind() == types.Uint64 {
+					continue
+				}
+				if inner, ok := ft.Underlying().(*types.Struct); ok && inner.NumFields() >= 2 {
+					continue
+				}
+				return false
+			}
+			return true
+		}
+		lowLimb := func(v ssa.Value) bool {
+			switch x := v.(type) {
+			case *ssa.Field:
+				return x.Field == 0 && isLimbStruct(x.X.Type())
+			case *ssa.UnOp:
+				if fa, ok := x.X.(*ssa.FieldAddr); ok && x.Op == token.MUL {
+					pt, ok := fa.X.Type().Underlying().(*types.Pointer)
+					return ok && fa.Field == 0 && isLimbStruct(pt.Elem())
+				}
+			}
+			return false
+		}
+		n, bad := 0, 0
+		for _, fn := range p.Funcs() {
+			if pkgOf(fn) == nil || pkgOf(fn).Path() != core.PkgProto || fn.Blocks == nil {
+				continue
+			}
+			for _, b := range fn.Blocks {
+				for _, in := range b.Instrs {
+					bo, ok := in.(*ssa.BinOp)
+					if !ok {
+						continue
+					}
+					switch bo.Op {
+					case token.LSS, token.GEQ, token.GTR, token.LEQ:
+					default:
+						continue
+					}
+					for _, pair := range [][2]ssa.Value{{bo.X, bo.Y}, {bo.Y, bo.X}} {
+						if k, okc := core.ConstInt(pair[1]); !okc || k != 0 {
+							continue
+						}
+						cv, ok := pair[0].(*ssa.Convert)
+						if !ok {
+							continue
+						}
+						bt, ok := cv.Type().Underlying().(*types.Basic)
+						if !ok || bt.Info()&types.IsInteger == 0 || bt.Info()&types.IsUnsigned != 0 {
+							continue
+						}
+						src := cv.X
+						for {
+							if c2, ok := src.(*ssa.Convert); ok {
+								src = c2.X
+								continue
+							}
+							break
+						}
+						if !lowLimb(src) {
+							if core.DependsOn(src, func(v ssa.Value) bool { return lowLimb(v) || (func() bool { f, ok := v.(*ssa.Field); return ok && isLimbStruct(f.X.Type()) })() }, false) {
+								n++
+							}
+							continue
+						}
+						n++
+						bad++
+						c.R.Bad(rule, core.FuncName(fn)+"/low-sign", cfg, p.Pos(bo.Pos()), "the sign of a wide integer is tested on its least significant limb: non-negative values with bit 63 of the low limb set are treated as negative")
+					}
+				}
+			}
+		}
+		if bad == 0 {
+			c.R.Ok(rule, "proto", cfg, "", sprintf("no sign test on a least significant limb (%d sign tests on limbs seen)", n))
+		}
 	}()
 
 	// ---- C20.family
